@@ -40,9 +40,22 @@ for mj in sorted(glob.glob(os.path.join(ROOT, "seeded", "*", "*", "meta.json")))
     verdict = {1: "**caught**", 0: "missed", 2: "undecided"}.get(m.get("vf_check_exit"), str(m.get("vf_check_exit")))
     if m.get("caught_after_strengthening"):
         verdict = "**caught** (after strengthening: %s)" % m["caught_after_strengthening"]
+    if m.get("superseded_by"):
+        verdict = "superseded by %s (%s)" % (m["superseded_by"], short(m.get("superseded_note", ""), 160))
     rows.append("| %s | %s | %s | %s / %s | %s | %s | %s |" % (
         m["property"], m["name"], short(m.get("needs", ""), 90), m.get("demo_exit_pristine"), m.get("demo_exit_patched"),
         m.get("pinned_tests_with_patch"), verdict, ", ".join(vio) or "—"))
+ms = [json.load(open(mj)) for mj in sorted(glob.glob(os.path.join(ROOT, "seeded", "*", "*", "meta.json")))]
+ms = [m for m in ms if not m.get("superseded_by")]
+n1 = len([m for m in ms if m.get("vf_check_exit") == 1])
+n1s = len([m for m in ms if m.get("vf_check_exit") == 1 and m.get("caught_after_strengthening")])
+n2 = len([m for m in ms if m.get("vf_check_exit") == 2])
+n0 = len([m for m in ms if m.get("vf_check_exit") == 0])
+rows.append("")
+rows.append("Summary: %d seeded changes over %d properties — %d caught (exit 1 with a named obligation; %d of them only after "
+            "the check was strengthened), %d undecided (exit 2: the change alters a signature, a loop shape or a callee set "
+            "that a contract names, so the proof no longer builds — the check fails loudly but does not call it a "
+            "violation), %d missed (exit 0)." % (len(ms), len(set(m["property"] for m in ms)), n1, n1s, n2, n0))
 table2 = "\n".join(rows)
 
 m = json.load(open(os.path.join(ROOT, "MANIFEST.json")))
